@@ -24,6 +24,9 @@ pub struct Baton {
     /// set when the run had to leave deterministic mode (see `monitor`)
     free: std::sync::atomic::AtomicBool,
     done: std::sync::atomic::AtomicBool,
+    /// mirror of `Inner::current` that a running thread can read without the lock (usize::MAX = nobody)
+    owner: std::sync::atomic::AtomicUsize,
+    lock_handoffs: std::sync::atomic::AtomicU64,
 }
 
 struct Inner {
@@ -42,6 +45,10 @@ struct Inner {
     waiting: Vec<bool>,
     opts: SchedOpts,
     aligned_pairs: u64,
+    /// threads the monitor found asleep in the kernel while they held the baton (blocked on a lock of the
+    /// code under test that a parked thread holds) and took the baton away from; cleared when the thread
+    /// parks at its next yield point
+    blocked: Vec<bool>,
 }
 
 /// Optional scheduling policy "aligned starts": a thread that reaches an operation boundary waits
@@ -70,6 +77,8 @@ pub struct SchedStats {
     pub free_running: bool,
     /// operation starts that were aligned with another thread's operation start
     pub aligned_pairs: u64,
+    /// times the baton was taken from a thread that blocked on a lock of the code under test
+    pub lock_handoffs: u64,
 }
 
 pub struct Handle {
@@ -98,12 +107,15 @@ impl Baton {
                 waiting: vec![false; n],
                 opts,
                 aligned_pairs: 0,
+                blocked: vec![false; n],
             }),
             cv: Condvar::new(),
             phases: (0..n).map(|_| AtomicU8::new(0)).collect(),
             ktids: (0..n).map(|_| std::sync::atomic::AtomicI32::new(0)).collect(),
             free: std::sync::atomic::AtomicBool::new(false),
             done: std::sync::atomic::AtomicBool::new(false),
+            owner: std::sync::atomic::AtomicUsize::new(usize::MAX),
+            lock_handoffs: std::sync::atomic::AtomicU64::new(0),
         })
     }
 
@@ -139,6 +151,7 @@ impl Baton {
             overlap_states: g.overlap.iter().cloned().collect(),
             free_running: self.free.load(Ordering::SeqCst),
             aligned_pairs: g.aligned_pairs,
+            lock_handoffs: self.lock_handoffs.load(Ordering::SeqCst),
         }
     }
 }
@@ -152,6 +165,26 @@ impl Handle {
             g = b.cv.wait(g).unwrap();
         }
         self.gap.set(Baton::draw_gap(&mut g));
+    }
+
+    /// This thread is running although it does not hold the baton: the monitor took the baton away
+    /// while the thread was blocked on a lock, and the lock has been released since. Park here, as a
+    /// runnable thread, until the baton comes back.
+    #[cold]
+    fn reacquire(&self) {
+        let b = &self.baton;
+        let mut g = b.inner.lock().unwrap();
+        g.blocked[self.tid] = false;
+        g.steps += self.local_steps.replace(0);
+        while g.current != Some(self.tid) && !b.free.load(Ordering::SeqCst) {
+            g = b.cv.wait(g).unwrap();
+        }
+        self.redraw_gap(&mut g);
+    }
+
+    #[inline]
+    fn holds_baton(&self) -> bool {
+        self.baton.owner.load(Ordering::Relaxed) == self.tid
     }
 
     /// Hand the baton to `to` (≠ self) and wait until it comes back.
@@ -168,6 +201,7 @@ impl Handle {
         let pb = b.phases[to].load(Ordering::Relaxed);
         g.overlap.insert((pa, pb));
         g.current = Some(to);
+        b.owner.store(to, Ordering::SeqCst);
         b.cv.notify_all();
         while g.current != Some(self.tid) && !b.free.load(Ordering::SeqCst) {
             g = b.cv.wait(g).unwrap();
@@ -177,7 +211,11 @@ impl Handle {
 
     /// another runnable thread; threads parked at an aligned start are not runnable unless `any`
     fn pick_other_from(g: &mut Inner, me: usize, any: bool) -> Option<usize> {
-        let others: Vec<usize> = (0..g.alive.len()).filter(|&i| g.alive[i] && i != me && (any || !g.waiting[i])).collect();
+        let mut others: Vec<usize> = (0..g.alive.len()).filter(|&i| g.alive[i] && i != me && (any || !g.waiting[i]) && !g.blocked[i]).collect();
+        if others.is_empty() && any {
+            // only threads that were last seen blocked on a lock are left: one of them may have woken up
+            others = (0..g.alive.len()).filter(|&i| g.alive[i] && i != me).collect();
+        }
         if others.is_empty() {
             None
         } else {
@@ -187,6 +225,9 @@ impl Handle {
 
     fn pick_other(g: &mut Inner, me: usize) -> Option<usize> {
         if g.opts.align {
+            return Self::pick_other_from(g, me, false);
+        }
+        if g.blocked.iter().any(|&b| b) {
             return Self::pick_other_from(g, me, false);
         }
         let others: Vec<usize> = (0..g.alive.len()).filter(|&i| g.alive[i] && i != me).collect();
@@ -206,6 +247,9 @@ impl Handle {
     /// `n` yield points at once (the pre-emption decision is taken at the last of them)
     #[inline]
     pub fn yield_point_n(&self, n: u64) {
+        if !self.holds_baton() && !self.baton.free.load(Ordering::Relaxed) {
+            self.reacquire();
+        }
         self.local_steps.set(self.local_steps.get() + n);
         let dl = self.dense_left.get();
         if dl > 0 {
@@ -254,6 +298,9 @@ impl Handle {
     pub fn boundary(&self) {
         if self.baton.free.load(Ordering::Relaxed) {
             return;
+        }
+        if !self.holds_baton() {
+            self.reacquire();
         }
         let b = self.baton.clone();
         let mut g = b.inner.lock().unwrap();
@@ -304,6 +351,11 @@ impl Handle {
         let mut g = b.inner.lock().unwrap();
         g.steps += self.local_steps.replace(0);
         g.alive[self.tid] = false;
+        if g.current != Some(self.tid) {
+            // finished while somebody else holds the baton (see `reacquire`): nothing to hand over
+            b.cv.notify_all();
+            return;
+        }
         let next = match Self::pick_other(&mut g, self.tid) {
             Some(t) => Some(t),
             None => Self::pick_other_from(&mut g, self.tid, true),
@@ -312,6 +364,7 @@ impl Handle {
             g.trace = hash_u64(hash_u64(hash_u64(g.trace, g.steps), 0xF1), to as u64);
         }
         g.current = next;
+        b.owner.store(next.unwrap_or(usize::MAX), Ordering::SeqCst);
         b.cv.notify_all();
     }
 }
@@ -364,6 +417,7 @@ pub fn run_threads_opts<T: Send + 'static>(
         let first = g.rng.usize_below(n);
         g.trace = hash_u64(g.trace, first as u64);
         g.current = Some(first);
+        baton.owner.store(first, Ordering::SeqCst);
         baton.cv.notify_all();
     }
     // Monitor: the baton scheduler knows nothing about locks the code under test may take. If the
@@ -395,11 +449,36 @@ pub fn run_threads_opts<T: Send + 'static>(
                     sleeping = 0;
                 }
                 last = cur;
-                if sleeping >= 10 {
-                    b.free.store(true, Ordering::SeqCst);
-                    let _g = b.inner.lock().unwrap();
+                if sleeping >= 4 {
+                    // The baton holder is asleep in the kernel: it blocked on a lock of the code under
+                    // test that a parked thread holds. Treat the blocking as a yield: give the baton to
+                    // another thread. The blocked thread wakes when the lock is released, runs until its
+                    // next yield point and parks there (`reacquire`). Only if nobody else could run is
+                    // the run released into free-running mode.
+                    let mut g = b.inner.lock().unwrap();
+                    let me = match g.current {
+                        Some(c) if Some(c) == cur => c,
+                        _ => {
+                            sleeping = 0;
+                            continue;
+                        }
+                    };
+                    let cands: Vec<usize> = (0..g.alive.len()).filter(|&i| i != me && g.alive[i] && !g.blocked[i]).collect();
+                    if cands.is_empty() {
+                        b.free.store(true, Ordering::SeqCst);
+                        b.cv.notify_all();
+                        break;
+                    }
+                    let to = cands[g.rng.usize_below(cands.len())];
+                    g.blocked[me] = true;
+                    b.lock_handoffs.fetch_add(1, Ordering::SeqCst);
+                    g.waiting[to] = false;
+                    g.switches += 1;
+                    g.trace = hash_u64(hash_u64(hash_u64(g.trace, g.steps), 0xB10C ^ me as u64), to as u64);
+                    g.current = Some(to);
+                    b.owner.store(to, Ordering::SeqCst);
                     b.cv.notify_all();
-                    break;
+                    sleeping = 0;
                 }
             }
         }))
